@@ -70,8 +70,15 @@ def run(ctx):
     return {}
 
 
+class _OneSite(Exception):
+    pass
+
+
 def the_cps(ctx, u):
-    ctx.require(len(u.cps) == 1, "StreamGroup::poll_next_inner child poll (found %d)" % len(u.cps))
+    ctx.require(len(u.cps) >= 1, "StreamGroup::poll_next_inner child poll (found %d)" % len(u.cps))
+    if len(u.cps) != 1:
+        # a second poll site (a "lone member" fast path) is outside the one gated scan the bookkeeping is defined for
+        ctx.fail("C12.POLL", u.where, "members are polled at %d sites; every member poll must be the gated scan site" % len(u.cps), site=u.cps[1].where)
     return u.cps[0]
 
 
